@@ -182,19 +182,40 @@ def order(run, p, funcs):
 
 
 def memo(run, p):
-    run.rule('C14-MEMO', 'the compiled-regex memo is keyed by everything the cached value depends on (the pattern text; the flags are a constant)')
-    f = p.fn(MOD + '.cre')
-    comp = [x for x in ast.walk(f.node) if isinstance(x, ast.Call) and norm(x.func) == 're.compile']
-    keys = [x for x in ast.walk(f.node) if isinstance(x, ast.Subscript) and norm(x.value) == 'memo']
-    gets = [x for x in ast.walk(f.node) if isinstance(x, ast.Call) and norm(x.func) == 'memo.get']
-    ok = len(comp) == 1 and bool(keys)
-    if ok:
-        var = {a.id for a in comp[0].args if isinstance(a, ast.Name) and a.id in f.params}
-        ok = all(isinstance(k.slice, ast.Name) and {k.slice.id} == var for k in keys) and \
-            all(g.args and isinstance(g.args[0], ast.Name) and {g.args[0].id} == var for g in gets)
-    run.ob('C14-MEMO', '%s::%s' % (f.rel, f.short), ok, 'cre() caches re.compile(%s) under memo[%s]' % (
-        ', '.join(norm(a) for a in comp[0].args) if comp else '?', norm(keys[0].slice) if keys else '?'), fn=f)
-    run.floor('C14-MEMO', 1, 1)
+    from .common import dep_closure, names_in
+    run.rule('C14-MEMO', 'a result kept in a module-level table is keyed by everything it was computed from: for every store '
+                         'TABLE[key] = value in the rexpy module, each parameter of the function that the value depends on also '
+                         'appears in the key (a memo that forgets an argument makes a call depend on the calls before it)')
+    m = p.mod(MOD)
+    tables = set()
+    for s in m.tree.body:
+        if isinstance(s, ast.Assign) and len(s.targets) == 1 and isinstance(s.targets[0], ast.Name) and \
+                (isinstance(s.value, ast.Dict) and not s.value.keys or
+                 (isinstance(s.value, ast.Call) and getattr(s.value.func, 'id', '') in ('dict', 'OrderedDict', 'defaultdict') and not s.value.args)):
+            tables.add(s.targets[0].id)
+    n = 0
+    for f in p.funcs.values():
+        if f.mod is not m or isinstance(f.node, ast.Lambda):
+            continue
+        for s in p.own_nodes(f):
+            if not isinstance(s, ast.Assign):
+                continue
+            tg = [t for t in s.targets if isinstance(t, ast.Subscript) and isinstance(t.value, ast.Name) and t.value.id in tables]
+            if not tg:
+                continue
+            tgt = tg[0]
+            n += 1
+            params = set(f.params) - {'self', 'cls'}
+            vsrc = names_in(s.value)
+            ksrc = names_in(tgt.slice)
+            vdep = (dep_closure(f.node, vsrc) | vsrc) & params
+            kdep = (dep_closure(f.node, ksrc) | ksrc) & params
+            miss = sorted(vdep - kdep)
+            run.ob('C14-MEMO', '%s::%s::%s' % (f.rel, f.short, tgt.value.id), not miss,
+                   '%s caches a value computed from %s under a key built from %s%s' % (
+                       f.short, sorted(vdep), sorted(kdep), '' if not miss else ': %s is not part of the key' % ', '.join(miss)),
+                   fn=f, node=s)
+    run.floor('C14-MEMO', n, 1)
 
 
 ARG_ENTRIES = ['extract', 'pdextract', 'rexpy_streams', 'Extractor.__init__']
